@@ -265,7 +265,7 @@ def check_C13(chk, tier, seed):
                        "timeouts: 2.5 s to connect, 2.5 s for the answer, on loopback"]
 
 
-FAULTS = ["announce-leave", "malformed", "oversized", "zero-length", "stall-midframe", "stall-setup", "garbage-setup", "reset", "reset-midframe", "handler-panic", "handler-panic-sync", "handler-panic-fmt", "handler-panic-unwrap", "vanish-before-answer", "deep-nesting", "vendor-zero", "nest-30", "announce-stall", "exact-1mib"]
+FAULTS = ["announce-leave", "malformed", "oversized", "zero-length", "stall-midframe", "stall-setup", "garbage-setup", "reset", "reset-midframe", "handler-panic", "handler-panic-sync", "handler-panic-fmt", "handler-panic-unwrap", "vanish-before-answer", "deep-nesting", "vendor-zero", "nest-30", "announce-stall", "exact-1mib", "reset-same-port"]
 
 
 def check_C10(chk, tier, seed):
@@ -323,6 +323,17 @@ def check_C10(chk, tier, seed):
                           dict(case=c, impl=short(im)))
         if i % max(1, len(cases) // 6) == 0:
             chk.sample(dict(case=c, impl=im, P=ok))
+    # a server that has been up for more than five seconds with connections that are open and idle, a peer stalled in mid-frame, a
+    # new connection: the idle connections' next requests are answered (plain and TLS, side by side)
+    aged = core.run_sharded([eng.harness, "codec"], eng.prelude, ["NETAGED 0", "NETAGED 1"], shards=2, timeout=300, env=NET_ENV)
+    for c, im in zip(["NETAGED 0", "NETAGED 1"], aged):
+        chk.case(c, True)
+        chk.validated += 1
+        chk.count("aged-server-idle-connections")
+        f = im.split()[1:] if im.startswith("NETAGED") else []
+        if not (len(f) == 7 and all(x.endswith("=ok") for x in f)):
+            chk.violation("connections that were open and idle while another peer stalled and a new one connected did not get their next requests answered: " + short(im, 300),
+                          dict(case=c, impl=short(im)))
     chk.rule = ("every fault kind (malformed frame, oversized frame, zero length, stall in mid-frame, stall before connection setup incl. a TLS handshake never started, "
                 "garbage at setup, reset, reset in mid-frame, handler panic inside the handler's future and in its synchronous part, with a literal and with a formatted message and from unwrap() (alone, and 12-20 of them in a row), a frame of Grouped AVPs nested 131 000 deep, a peer that resets the connection while the handler is still preparing its answer so that the write fails) alone with 3 well-behaved raw-socket clients, for plain TCP and TLS listeners, plus random "
                 "combinations of 1-3 faulty peers with 1-4 good clients; 5 and 9 simultaneous peers stuck in connection setup; 72 peers in a row that announce a 1 MiB frame and leave in the middle of it; half of the good clients are open before the faults are injected, half open afterwards; "
